@@ -280,6 +280,19 @@ pub fn run(ctx: &mut Ctx, dom: &str, a: &[Arg]) {
                 },
             );
         }
+        "verify" => {
+            // a bare 16-byte basic header (the generator keeps the architecture word defined)
+            let g = Guarded::new(a[0].b(), 0, ctx.place_end);
+            let h = unsafe { &*(g.ptr as *const Multiboot2BasicHeader) };
+            let r = guard(|| h.verify_checksum());
+            ctx.ln(
+                "verify_checksum",
+                match r {
+                    Ok(b) => format!("VAL {}", b),
+                    Err(()) => "PANIC".to_string(),
+                },
+            );
+        }
         "cksum" => {
             let arch = if a[1].n() == 0 { HeaderTagISA::I386 } else { HeaderTagISA::MIPS32 };
             let r = guard(|| Multiboot2Header::calc_checksum(a[0].n() as u32, arch, a[2].n() as u32));
